@@ -15,7 +15,7 @@ PROPS = {
         "level": "proof",
         "verus": {
             "expr": ["Value::from_bool", "Value::to_bool", "UnOp::eval", "BinOp::eval",
-                     "Row::index", "Ast::eval"],
+                     "Column::name", "Table::index_for_column_name", "Row::index", "Ast::eval"],
         },
         "pairs": {"UnOp::eval": "c13_unop_total", "BinOp::eval": "c13_binop_total"},
     },
@@ -156,6 +156,23 @@ PROPS["C19"] = {
         "Value's Display impl emits one literal segment (uninterpreted text); string literals needing escapes are excluded by the statement",
         "derivations of the stratified, left-associative ladder grammar are unique (standard fact), so 'has a derivation whose tree is t' means 'is read as t'",
         "Display of Select/Join/Insert/Update/Delete is NOT covered",
+    ],
+}
+
+SERIAL_FNS = ["StringRef::write", "ColumnType::write_value", "ColumnType::width", "Column::coltype",
+              "Table::write_rows", "StringPool::write_pool", "StringPool::write_data",
+              "lemma_offset16", "lemma_offset32", "lemma_ref_split"]
+PROPS["C01"]["verus"]["serial"] = SERIAL_FNS
+PROPS["C08"]["verus"]["serial"] = SERIAL_FNS
+
+PROPS["C15"] = {
+    "level": "proof",
+    "verus": {"serial": ["Table::write_rows", "StringPool::write_pool", "StringPool::write_data",
+                         "ColumnType::write_value", "StringRef::write"]},
+    "assumptions": [
+        "the writer is modelled by VSink (prelude/sink.rs): bytes accepted vs bytes known committed; only a successful flush() commits; any call may fail -- this is what the documented Write contract lets generic code assume about cfb::Stream, whose Drop discards the result of its final flush",
+        "decided: each of the three serializers returns Ok only after a successful flush that follows its last write, and propagates every writer error it sees",
+        "NOT covered: PropertySet::write (BTreeMap iteration + enumerate), FinishImpl::finish / Package::flush / into_inner propagation, user-held StreamWriters, read/seek faults, the cfb container itself",
     ],
 }
 
